@@ -340,6 +340,13 @@ theorem C02_ready_of_connector6 (tl : Bool) (sched : List (Move (proto6 tl))) (w
     Tw.Conn.Event.ready ∈ (w.get s).events :=
   P6.ready_of_connector6 tl sched w hrun s h1 h2
 
+/-- … exactly once (with C01's "at most once") -/
+theorem C02_ready_exactly_once6 (tl : Bool) (sched : List (Move (proto6 tl))) (w : World (proto6 tl))
+    (hrun : NetSim.run (World.init (proto6 tl)) sched = some w) (s : Side) {t : Option Nat} {o : Tw.Conn.Online}
+    (h1 : (w.get s).conn.state = .online t o) (h2 : P6.hasConnect (w.get s)) :
+    readyCount (w.get s).events = 1 :=
+  P6.ready_exactly_once6 tl sched w hrun s h1 h2
+
 /-- no acceptor is online while its peer is still connecting (every reachable world) -/
 theorem C02_no_online_acceptor_while_connecting6 (tl : Bool) (sched : List (Move (proto6 tl)))
     (w : World (proto6 tl)) (hrun : NetSim.run (World.init (proto6 tl)) sched = some w) (s : Side)
@@ -400,6 +407,12 @@ theorem C02_ready_of_connector7 (sched : List (Move proto7)) (w : World proto7)
     Tw.Conn.Event.ready ∈ w.a.events ∧
       (P7.tag w.b.conn.state = 4 ∨ P7.tag w.b.conn.state = 5 ∨ P7.tag w.b.conn.state = 6) :=
   P7.ready_of_connector7 sched w hrun hca h
+
+/-- … exactly once -/
+theorem C02_ready_exactly_once7 (sched : List (Move proto7)) (w : World proto7)
+    (hrun : NetSim.run (World.init proto7) sched = some w) (hca : P7.connects .a sched = true)
+    {o t : Nat} {c : Tw.Conn.Online} (h : w.a.conn.state = .online o t c) : readyCount w.a.events = 1 :=
+  P7.ready_exactly_once7 sched w hrun hca h
 
 end Timed
 
